@@ -88,6 +88,10 @@ func (pc *parentController) syncRollingUpdate(parentRevisions []*parentRevision,
 	// We go one by one, in the order in which the controller returned them
 	// in the latest sync hook result.
 	for _, child := range latest.syncResult.Children {
+		if child == nil {
+			// a null entry (e.g. `"children": [null]` in a hook response) is not a child
+			continue
+		}
 		apiGroup, _ := common.ParseAPIVersion(child.GetAPIVersion())
 		kind := child.GetKind()
 		name := child.GetName()
